@@ -24,7 +24,49 @@ PROBES = {
     "g2": [("r", "aF0\n"), ("r", "aG"), ("r", "1"), ("s", "qQ7"), ("s", "qq"), ("s", "q"), ("u", "xd"), ("u", "xc"), ("u", "")],
 }
 KINDS = ("U", "O", "C")
-BOUNDS = {"quick": {"depth": 3, "preemptions": 1, "free_iterations": 200}, "thorough": {"depth": 4, "preemptions": 2, "free_iterations": 2000}}
+BOUNDS = {"quick": {"depth": 3, "preemptions": 1, "free_iterations": 200, "two_state_depth": 7}, "thorough": {"depth": 4, "preemptions": 2, "free_iterations": 2000, "two_state_depth": 9}}
+
+
+class TwoStates:
+    """(c) Two ParserState objects - the per-parse states of two concurrent parse() calls - driven by every
+    interleaving of their operations; each must keep behaving like its own full-copy reference.  Anything mutable
+    that the two objects share (a class-level list, a module-level scratch) shows as a divergence."""
+
+    name = "TwoParserStates"
+
+    def __init__(self):
+        from . import c09
+
+        self.m = c09.StateMachine()
+        self.ops = tuple(f"{w}.{o}" for w in "AB" for o in self.m.ops)
+
+    def new(self):
+        a, ra = self.m.new()
+        b, rb = self.m.new()
+        return (a, b), {"A": ra, "B": rb}
+
+    def enabled(self, impl, ref):
+        out = []
+        for i, w in enumerate("AB"):
+            # a reduced menu per state keeps the product small: snapshots, restores, the counter and one stack
+            for o in self.m.enabled(impl[i], ref[w]):
+                if o in ("checkpoint", "ok", "restore", "push", "drop", "atomic_inc", "atomic_zero"):
+                    out.append(f"{w}.{o}")
+        return out
+
+    def apply(self, impl, ref, op):
+        w, o = op.split(".")
+        i = "AB".index(w)
+        self.m.apply(impl[i], ref[w], o)
+
+    def observe(self, impl):
+        return (self.m.observe(impl[0]), self.m.observe(impl[1]))
+
+    def expect(self, ref):
+        return (self.m.expect(ref["A"]), self.m.expect(ref["B"]))
+
+    def internal_object(self, impl):
+        return list(impl)
 
 
 def make(kind, g):
@@ -169,6 +211,29 @@ def harnesses():
     hs["parse||parse optimised, bounded repetition"] = (lambda: (lambda p: [lambda: modes.observe(p, "r", "aa", detail=True), lambda: modes.observe(p, "r", "ab", detail=True)])(
         __import__("pest").Parser.from_grammar('r = { "a"{1,2} ~ EOI }\n', optimizer=None)), ())
 
+    TG = ('WHITESPACE = _{ " " }\nCOMMENT = _{ "#" ~ (!"!" ~ ANY)* ~ "!" }\n'
+          'tight = @{ "-"? ~ "a" ~ "b" }\nloose = { "-"? ~ "a" ~ "b" }\n')
+
+    TINY = 'WHITESPACE = _{ " " }\ntight = @{ "-"? ~ "a" ~ "b" }\nloose = { "-"? ~ "a" ~ "b" }\n'
+
+    def trivia(text, kind, generated, second, first=("tight", "a b")):
+        def mk():
+            from pest import Parser
+
+            p = Parser.from_grammar(text, optimizer=None) if kind == "U" else Parser.from_grammar(text)
+            obj = modes.Generated(p.generate()) if generated else p
+            return [lambda: modes.observe(obj, first[0], first[1], detail=True), lambda: modes.observe(obj, "loose", second, detail=True)]
+        return mk
+
+    # fresh shared parser per execution (so anything initialised lazily on first use is initialised under
+    # contention), implicit trivia in BOTH threads
+    hs["trivia+comment: loose || loose, fresh interpreter unoptimised"] = (trivia(TG, "U", False, "a #c! b", ("loose", "-a b")), ())
+    hs["trivia+comment: loose || loose, fresh interpreter optimised"] = (trivia(TG, "O", False, "a #c! b", ("loose", "-a b")), ())
+    # tiny: small enough for preemption bound 2 in the quick tier (a snapshot list shared between the states of
+    # two threads needs two switches to go wrong: A snapshots, B snapshots, A restores)
+    hs["tiny trivia+atomic: tight || loose, interpreter unoptimised"] = (trivia(TINY, "U", False, "a b"), ())
+    hs["tiny trivia+atomic: tight || loose, generated"] = (trivia(TINY, "U", True, "a b"), ())
+
     def with_factory():
         p = make("U", "g1")
         r1, t1 = PROBES["g1"][1]
@@ -178,13 +243,13 @@ def harnesses():
 
 
 def _sched_worker(payload):
-    name, bound, cap = payload
+    name, bound, cap, part, nparts = payload
     mk, atomic = harnesses()[name]
     seq = [b() for b in mk()]          # sequential observations on fresh objects
     seq2 = [b() for b in reversed(mk())][::-1]
     if seq != seq2:
         return name, {"executions": 0}, [{"kind": "sequential-order-matters", "expected": seq, "got": seq2}]
-    stats, viol = sched.explore(mk, seq, bound=bound, atomic=atomic, max_executions=cap)
+    stats, viol = sched.explore(mk, seq, bound=bound, atomic=atomic, max_executions=cap, part=part, nparts=nparts)
     return name, stats, viol[:20]
 
 
@@ -192,7 +257,10 @@ def _free_running(payload):
     """Smoke test without the tracer (never decides; a mismatch is still a violation with its inputs)."""
     import threading
 
+    import sys
+
     iterations, = payload
+    sys.setswitchinterval(1e-6)        # provoke as many switches as CPython will give
     p = make("O", "g1")
     m = modes.Generated(make("U", "g1").generate())
     want = {}
@@ -255,13 +323,34 @@ def run(tier: str) -> int:
     viol.sort(key=lambda v: (len(v["ops"]), repr(v["ops"])))
     # schedules
     names = list(harnesses())
-    cap = 1500 if tier == "quick" else 40000
-    sres = common.parallel_map(_sched_worker, [(n, b["preemptions"], cap) for n in names], fresh=True)
+    cap = 60000
+    payloads = []
+    for n in names:
+        bound = b["preemptions"]
+        if n.startswith("tiny") and tier == "thorough":
+            bound = max(bound, 2)
+        nparts = 16 if bound >= 2 else 2
+        payloads.extend((n, bound, cap, part, nparts) for part in range(nparts))
+    sres = common.parallel_map(_sched_worker, payloads, fresh=True)
     sstats = {}
     for name, st, sv in sres:
-        sstats[name] = st
+        agg = sstats.setdefault(name, {})
+        for k2, v2 in st.items():
+            if isinstance(v2, bool):
+                agg[k2] = agg.get(k2, False) or v2
+            elif k2 == "max_steps":
+                agg[k2] = max(agg.get(k2, 0), v2)
+            else:
+                agg[k2] = agg.get(k2, 0) + v2
         for v in sv:
             viol.append({"harness": name, "ops": [], **v})
+    # (c) operation-level interleavings of two parser states
+    from .. import bfs
+
+    d2 = b["two_state_depth"]
+    two = bfs.run(TwoStates(), d2, split_at=4 if d2 > 4 else None)
+    for v in two["violations"][:3]:
+        viol.append({"harness": "two ParserState objects, operation interleavings", "ops": [], "kind": "two-states-" + v["kind"], "history": v["ops"], "expected": v.get("expected"), "got": v.get("got"), "detail": v.get("detail")})
     (free_n, free_bad), = common.parallel_map(_free_running, [(b["free_iterations"],)], fresh=True)
     for v in free_bad:
         viol.append({"harness": "free-running", "ops": [], **v})
@@ -288,8 +377,8 @@ def run(tier: str) -> int:
                 rep.violation({"family": "fixed-witness", "finding": fd["id"], "kind": "regression", **w})
     executions = sum(s.get("executions", 0) for s in sstats.values())
     rep.coverage = {
-        "states": len(states) + sum(s.get("distinct_outcomes", 0) for s in sstats.values()),
-        "transitions": transitions + sum(s.get("scheduling_points", 0) for s in sstats.values()),
+        "states": len(states) + sum(s.get("distinct_outcomes", 0) for s in sstats.values()) + two["states"],
+        "transitions": transitions + sum(s.get("scheduling_points", 0) for s in sstats.values()) + two["transitions"],
         "traces_validated_against_impl": len(histories) + executions,
         "evaluations": len(histories) + executions,
         "distinct_nontrivial": len(histories) + executions,
@@ -298,7 +387,8 @@ def run(tier: str) -> int:
                 "(tree, or furthest_pos + expected/unexpected sets) must equal the one obtained in a process whose only history is the creation of that one parser. g1 and g2 use the same built-ins (ASCII_HEX_DIGIT, ASCII_ALPHA, NEWLINE, a Unicode property), the same rule names with different bodies and squashable choices. "
                 "states = distinct (global-state fingerprint, verdict) pairs - counted, never used to prune. "
                 "(b) two real threads sharing one parser / generated module under a cooperative scheduler that owns every line-level switch point in pest code: every schedule with at most the stated number of preemptions (both initial threads); "
-                "each thread's observation must equal its sequential observation. Plus a free-running pass of 8 untraced threads (a smoke test that never decides silence, only reports a mismatch)",
+                "each thread's observation must equal its sequential observation. (c) two ParserState objects (the per-parse state of two concurrent calls) under every interleaving of checkpoint/ok/restore/push/drop/atomic operations up to the stated depth, "
+                "each compared with its own full-copy reference (explicit-state BFS with canonicalised states). Plus a free-running pass of 8 untraced threads (a smoke test that never decides silence, only reports a mismatch)",
         "samples": [{"history": [["mk", "U", "g1"], ["mk", "O", "g2"], ["bad", "g1"]]}, {"schedule": {"harness": names[0], "initial": 0, "switches": [17]}}],
         "exhaustive": not any(s.get("cap_hit") for s in sstats.values()),
         "histories": len(histories),
@@ -306,6 +396,7 @@ def run(tier: str) -> int:
         "distinct_global_states": len({s[0] for s in states}),
         "schedules": sstats,
         "preemption_bound": b["preemptions"],
+        "two_parser_states": {"depth": d2, "states": two["states"], "transitions": two["transitions"], "violating_transitions": two["violation_count"]},
         "free_running_parses": free_n,
         "fixed_witnesses_replayed": regress,
     }
@@ -340,6 +431,23 @@ def replay_case(case: dict, quiet: bool = False) -> bool:
             print("  result :", res[1] if res[0] != "error" else res)
         return res[0] == "error" or bool(res[1])
     name = case.get("harness")
+    if case.get("history"):
+        from . import c09
+
+        m = TwoStates()
+        impl, ref = m.new()
+        for op in case["history"]:
+            try:
+                m.apply(impl, ref, op)
+            except Exception as exc:  # noqa: BLE001
+                if not quiet:
+                    print(f"  {op}: raised {type(exc).__name__}")
+                return True
+            if m.observe(impl) != m.expect(ref):
+                if not quiet:
+                    print(f"  {op}: impl={m.observe(impl)} ref={m.expect(ref)}")
+                return True
+        return False
     if name in harnesses():
         mk, atomic = harnesses()[name]
         seq = [b() for b in mk()]
